@@ -11,7 +11,16 @@ use serde::{Deserialize, Serialize};
 use std::time::{Duration, Instant};
 
 pub fn check(tier: Tier, seed: u64, replay: (Option<&str>, Option<&str>)) -> Vec<PartReport> {
-    crate::run_parts!(tier, seed, replay, [WirePart])
+    if let (Some(path), Some("")) = replay {
+        // not a JSON scenario: a libFuzzer artifact
+        return vec![super::c11f::replay_artifact(path)];
+    }
+    let mut v = vec![];
+    if replay.0.is_none() {
+        v.push(super::c11f::fuzz_stage(tier, seed));
+    }
+    v.extend(crate::run_parts!(tier, seed, replay, [WirePart]));
+    v
 }
 
 #[derive(Clone, Debug, Serialize, Deserialize, PartialEq)]
@@ -39,6 +48,10 @@ pub enum Payload {
     /// start-up style packet: length + code + bytes
     StartupPacket { len: i32, code: i32, body: Vec<u8> },
     Raw(Vec<u8>),
+    /// start-up packet with a correct length and protocol code around an arbitrary parameter block
+    StartupBody(Vec<u8>),
+    /// a message on which one of pgcat's decoders panics, found by the fuzz stage (committed snapshot in /verif/fuzz/panics)
+    Killer(Vec<u8>),
     /// a well-formed message of this kind in a place where it does not belong
     Misplaced(u8),
     /// malformed body for a known message type
@@ -77,6 +90,9 @@ fn one() -> u8 {
     1
 }
 
+/// The statement text the canary prepares (untagged, so that an attacker can send the very same text).
+pub const CANARY_SQL: &str = "SELECT v FROM t WHERE id = $1";
+
 pub struct WirePart;
 
 fn bytes_strategy(max: usize) -> BoxedStrategy<Vec<u8>> {
@@ -108,17 +124,62 @@ fn payload_strategy() -> BoxedStrategy<Payload> {
         6 => prop_oneof![Just(b'Q'), Just(b'P'), Just(b'B'), Just(b'D'), Just(b'E'), Just(b'C'), Just(b'S'), Just(b'H'), Just(b'd'), Just(b'c'), Just(b'f'), Just(b'p'), Just(b'X'), Just(b'F')],
         2 => any::<u8>(),
     ];
-    prop_oneof![
+    let base = prop_oneof![
         5 => (codes.clone(), len_strategy(), bytes_strategy(48)).prop_map(|(code, len, body)| Payload::Frame { code, len, body }),
         3 => (len_strategy(), prop_oneof![Just(196608i32), Just(80877103i32), Just(80877102i32), any::<i32>(), Just(0i32)], bytes_strategy(64)).prop_map(|(len, code, body)| Payload::StartupPacket { len, code, body }),
         2 => bytes_strategy(200).prop_map(Payload::Raw),
+        2 => prop_oneof![
+            bytes_strategy(60),
+            Just(b"user\0u\0database\0db\0\0".to_vec()),
+            Just(b"user\0u\0database\0db".to_vec()),
+            Just(b"user\0u\0database\0".to_vec()),
+            Just(b"user\0u\0database".to_vec()),
+            Just(b"user".to_vec()),
+            Just(b"\0\0\0".to_vec()),
+            "[a-z]{1,8}".prop_map(|k| format!("user\0u\0database\0db\0{}\0v", k).into_bytes()),
+        ]
+        .prop_map(Payload::StartupBody),
         3 => prop_oneof![Just(b'B'), Just(b'E'), Just(b'D'), Just(b'd'), Just(b'c'), Just(b'f'), Just(b'S'), Just(b'C'), Just(b'H'), Just(b'p')].prop_map(Payload::Misplaced),
         4 => (prop_oneof![Just(b'P'), Just(b'B'), Just(b'D'), Just(b'C'), Just(b'Q'), Just(b'E')], 0u8..8).prop_map(|(c, k)| Payload::BadBody(c, k)),
         1 => (1u8..40).prop_map(Payload::SyncStorm),
         4 => (0u8..8, 900u16..999).prop_map(|(k, n)| Payload::Valid(k, n)),
         3 => (0u8..14, prop_oneof![Just(10u32), Just(60), Just(300), Just(3000), Just(30_000), Just(200_000)], any::<bool>()).prop_map(|(shape, n, ext)| Payload::Sql { shape, n, ext }),
     ]
+    .boxed();
+    let killers = load_killers();
+    if killers.is_empty() {
+        return base;
+    }
+    let n = killers.len();
+    prop_oneof![
+        9 => base,
+        1 => (0..n).prop_map(move |i| Payload::Killer(killers[i].clone())),
+    ]
     .boxed()
+}
+
+/// Decoder-killing messages exported by the fuzz stage: typed messages as they are, start-up parameter blocks wrapped into a
+/// start-up packet.
+fn load_killers() -> Vec<Vec<u8>> {
+    let mut out = vec![];
+    for class in ["bind", "close", "describe", "parse", "startup", "startup-mismatch", "frame", "frame-mismatch"] {
+        let dir = format!("/verif/fuzz/panics/{}", class);
+        let mut files: Vec<_> = std::fs::read_dir(&dir).map(|r| r.filter_map(|e| e.ok()).map(|e| e.path()).collect()).unwrap_or_default();
+        files.sort();
+        for f in files {
+            if let Ok(b) = std::fs::read(&f) {
+                if class.starts_with("startup") {
+                    let mut v = ((b.len() + 8) as i32).to_be_bytes().to_vec();
+                    v.extend_from_slice(&196608i32.to_be_bytes());
+                    v.extend_from_slice(&b);
+                    out.push(v);
+                } else {
+                    out.push(b);
+                }
+            }
+        }
+    }
+    out
 }
 
 impl Part for WirePart {
@@ -133,7 +194,7 @@ impl Part for WirePart {
         true
     }
     fn rule(&self) -> String {
-        "an attacker (1..5 parallel connections) brings itself into a protocol state {fresh connection, after the password challenge, authenticated idle, inside a transaction, inside COPY FROM STDIN, with an unsynced batch, admin session} and sends 1..5 payloads from a structure-aware generator (typed frames whose length field is negative / 0..4 / inconsistent / up to 2^28, or 2^29 when the pooler runs under a 2 GiB address-space limit (a quarter of the cases), start-up packets with bad lengths, codes and unterminated parameters, raw bytes, well-formed messages out of place, known message types with malformed bodies, Sync storms, extreme SQL texts, and well-formed requests in between), then lingers or closes; a canary client shares the pool (pool_size 1 or 2) and runs tagged transactions before, during (whenever the attacker cannot legitimately hold every server connection: unauthenticated or admin attacker, or pool_size 2 with one attacker) and after; statement cache on/off, worker_threads 1/2. Oracle: pgcat stays alive; every canary transaction is answered with exactly its own rows; the backend session is clean whenever it passes from the attacker to the canary (C02's predicate); a new client can log in afterwards and pool_size clients can be inside a transaction simultaneously. Non-trivial = attacker bytes sent while it held the shared connection, or more attacker connections than worker threads".into()
+        "an attacker (1..5 parallel connections) brings itself into a protocol state {fresh connection, after the password challenge, authenticated idle, inside a transaction, inside COPY FROM STDIN, with an unsynced batch, admin session} and sends 1..5 payloads from a structure-aware generator (typed frames whose length field is negative / 0..4 / inconsistent / up to 2^28, or 2^29 when the pooler runs under a 2 GiB address-space limit (a quarter of the cases), start-up packets with bad lengths, codes and unterminated parameters, raw bytes, well-formed messages out of place, known message types with malformed bodies, messages on which a pgcat decoder panics (exported by the fuzz stage), Sync storms, extreme SQL texts, and well-formed requests in between), then lingers or closes; a canary client shares the pool (pool_size 1 or 2) and runs tagged transactions before, during (whenever the attacker cannot legitimately hold every server connection: unauthenticated or admin attacker, or pool_size 2 with one attacker) and after; statement cache on/off, worker_threads 1/2. Oracle: pgcat stays alive; every canary transaction is answered with exactly its own rows, and its Parse/Bind/Describe/Execute/Sync of a fixed statement text (which attacker payloads reuse) is answered 1 2 T D C Z; the backend session is clean whenever it passes from the attacker to the canary (C02's predicate); a new client can log in afterwards and pool_size clients can be inside a transaction simultaneously. Non-trivial = attacker bytes sent while it held the shared connection, or more attacker connections than worker threads".into()
     }
     fn cases(&self, tier: Tier) -> u64 {
         tier.pick(2000, 40_000)
@@ -171,7 +232,13 @@ pub fn render(p: &Payload, cap: i32) -> Vec<u8> {
             v.extend_from_slice(body);
             v
         }
-        Payload::Raw(b) => b.clone(),
+        Payload::Raw(b) | Payload::Killer(b) => b.clone(),
+        Payload::StartupBody(b) => {
+            let mut v = ((b.len() + 8) as i32).to_be_bytes().to_vec();
+            v.extend_from_slice(&196608i32.to_be_bytes());
+            v.extend_from_slice(b);
+            v
+        }
         Payload::Misplaced(code) => match code {
             b'B' => proto::bind("", "never_parsed", &[], &[], &[]),
             b'E' => proto::execute("no_portal", 0),
@@ -188,14 +255,14 @@ pub fn render(p: &Payload, cap: i32) -> Vec<u8> {
             let body: Vec<u8> = match (code, k % 8) {
                 (_, 0) => vec![],
                 (_, 1) => vec![0],
-                (b'P', 2) => b"name\0select 1".to_vec(),
+                (b'P', 2) => format!("name\0{}", CANARY_SQL).into_bytes(),
                 (b'P', 3) => {
-                    let mut b = b"n\0select 1\0".to_vec();
+                    let mut b = format!("n\0{}\0", CANARY_SQL).into_bytes();
                     b.extend_from_slice(&(-1i16).to_be_bytes());
                     b
                 }
                 (b'P', 4) => {
-                    let mut b = b"n\0select 1\0".to_vec();
+                    let mut b = format!("n\0{}\0", CANARY_SQL).into_bytes();
                     b.extend_from_slice(&(30000i16).to_be_bytes());
                     b
                 }
@@ -238,14 +305,15 @@ pub fn render(p: &Payload, cap: i32) -> Vec<u8> {
                 1 => proto::query(&format!("{} BEGIN", tag)),
                 2 => proto::query(&format!("{} COMMIT", tag)),
                 3 => {
-                    let mut v = proto::parse("att2", &format!("{} SELECT v FROM t WHERE id = $1", tag), &[]);
+                    let _ = &tag;
+                    let mut v = proto::parse("att2", CANARY_SQL, &[]);
                     v.extend_from_slice(&proto::bind("", "att2", &[], &[Some(b"1".to_vec())], &[]));
                     v.extend_from_slice(&proto::execute("", 0));
                     v.extend_from_slice(&proto::sync());
                     v
                 }
                 4 => proto::query(&format!("{} COPY t FROM STDIN", tag)),
-                5 => proto::parse("att2", &format!("{} SELECT v FROM t WHERE id = $1", tag), &[]),
+                5 => proto::parse("att2", CANARY_SQL, &[23]),
                 6 => {
                     let mut v = proto::bind("", "att2", &[], &[Some(b"1".to_vec())], &[]);
                     v.extend_from_slice(&proto::execute("", 0));
@@ -484,6 +552,8 @@ async fn run_case(c: &Case, ctx: &mut WorkerCtx) -> Outcome {
             Payload::Frame { .. } => "payload:frame",
             Payload::StartupPacket { .. } => "payload:startup_packet",
             Payload::Raw(_) => "payload:raw",
+            Payload::StartupBody(_) => "payload:startup_body",
+            Payload::Killer(_) => "payload:decoder-killer-from-fuzz-stage",
             Payload::Misplaced(_) => "payload:misplaced",
             Payload::BadBody(..) => "payload:bad_body",
             Payload::SyncStorm(_) => "payload:sync_storm",
@@ -519,6 +589,23 @@ async fn run_case(c: &Case, ctx: &mut WorkerCtx) -> Outcome {
     }
     if let Err((s, d)) = canary_txn(&mut canary, t0, "after the attack").await {
         bail!(&s, d);
+    }
+    // the canary prepares and runs a statement whose text the attacker may have used as well
+    {
+        let mut b = proto::parse("cs", CANARY_SQL, &[]);
+        b.extend_from_slice(&proto::bind("", "cs", &[], &[Some(b"1".to_vec())], &[]));
+        b.extend_from_slice(&proto::describe(b'P', ""));
+        b.extend_from_slice(&proto::execute("", 0));
+        b.extend_from_slice(&proto::sync());
+        canary.send(&b).await;
+        let (msgs, end) = canary.read_until_ready(wire::T_REPLY).await;
+        let codes: String = msgs.iter().map(|m| m.code as char).collect();
+        if !matches!(end, ReadEnd::Ready(b'I')) {
+            bail!("canary-not-answered", format!("canary's Parse/Bind/Describe/Execute/Sync of `{}` ended {:?} after {:?}", CANARY_SQL, end, codes));
+        }
+        if msgs.iter().any(|m| m.code == b'E') || !codes.starts_with("12T") || !codes.contains('D') {
+            bail!("canary-got-error", format!("canary's Parse/Bind/Describe/Execute/Sync of `{}` was answered {:?} {:?}", CANARY_SQL, codes, crate::cli::errors(&msgs)));
+        }
     }
     // a fresh client can still log in and be served
     match env.client(2, "u", "db", "pw", &[]).await {
